@@ -563,6 +563,31 @@ func renderConfig(cfg pCfg, version, specOut string) ([]byte, error) {
 	return renderConfigP(cfg, version, specOut, caseModule)
 }
 
+// schemeConfig is the configuration entry of a declared security scheme: an apiKey in a header, or - for names beginning with
+// "oa" - an oauth2 scheme with two flows whose scope maps differ.
+func schemeConfig(name string) map[string]any {
+	if strings.HasPrefix(name, "oa") {
+		return map[string]any{"description": "scheme " + name, "name": name, "type": "oauth2", "flows": map[string]any{
+			"clientCredentials": map[string]any{"tokenUrl": "https://auth.example.com/token",
+				"scopes": map[string]any{"read": "Read access", "write": "Write access", "admin": "Administrative access"}},
+			"authorizationCode": map[string]any{"authorizationUrl": "https://auth.example.com/authorize", "tokenUrl": "https://auth.example.com/token",
+				"scopes": map[string]any{"read": "Read only"}}}}
+	}
+	return map[string]any{"description": "scheme " + name, "name": name, "fieldName": "x-" + name, "type": "apiKey", "in": "header"}
+}
+
+// schemeDocument is what the OpenAPI document must say about that scheme (the configuration's fieldName is OpenAPI's name).
+func schemeDocument(name string) map[string]any {
+	c := schemeConfig(name)
+	out := map[string]any{"description": c["description"], "type": c["type"]}
+	if c["type"] == "apiKey" {
+		out["name"], out["in"] = c["fieldName"], c["in"]
+	} else {
+		out["flows"] = c["flows"]
+	}
+	return out
+}
+
 func renderConfigP(cfg pCfg, version, specOut, prefix string) ([]byte, error) {
 	globs := cfg.Globs
 	if len(globs) == 0 {
@@ -570,7 +595,7 @@ func renderConfigP(cfg pCfg, version, specOut, prefix string) ([]byte, error) {
 	}
 	schemes := []any{}
 	for _, s := range cfg.Schemes {
-		schemes = append(schemes, map[string]any{"description": "scheme " + s, "name": s, "fieldName": "x-" + s, "type": "apiKey", "in": "header"})
+		schemes = append(schemes, schemeConfig(s))
 	}
 	routesOut := cfg.RoutesOut
 	if routesOut == "" {
